@@ -88,6 +88,8 @@ class BlockServer:
             ack_num = num
             if self.misbehave == "b1-wrong-num" and idx == self.misbehave_at:
                 ack_num = num + 1
+            if self.misbehave == "b1-wrong-num-final" and not more and num > 0:
+                ack_num = num - 1
             if more:
                 return (rc.c(2, 31), [(rc.BLOCK1, rc.block_bytes(ack_num, True, ack_szx))], b"")
             tr.complete = True
